@@ -189,7 +189,11 @@ def _validate(headers, key: str, subprotocols) -> tuple:
 
     if subprotocols:
         subproto = headers.get("sec-websocket-protocol", None)
-        if not subproto or subproto.lower() not in [s.lower() for s in subprotocols]:
+        if (
+            not subproto
+            or not subproto.isascii()
+            or subproto.lower() not in [s.lower() for s in subprotocols]
+        ):
             error(f"Invalid subprotocol: {subprotocols}")
             return False, None
         subproto = subproto.lower()
